@@ -10,9 +10,10 @@ for m in sorted(glob.glob('/verif/seeded/*/meta.json')):
         for tok in v.split():
             if tok.startswith('obligation='):
                 obl.append(tok[len('obligation='):])
-    det = d.get('detected_by_checks') or []
+    det = [x for x in (d.get('detected_by_checks') or []) if not x.startswith('(') and '(exit' not in x]
+    note = [x for x in (d.get('detected_by_checks') or []) if x.startswith('(') or '(exit' in x]
     rows.append((d['seed_id'], d['breaks_property'], ', '.join(d.get('files_changed', [])), 'yes' if d.get('confirmed') else 'NO',
-                 (', '.join(det) if det else '**missed**'), '; '.join(obl[:3]) + (' …' if len(obl) > 3 else ''), first))
+                 (', '.join(det) if det else ('**missed**' + (' ' + ' '.join(note) if note else ''))), '; '.join(obl[:3]) + (' …' if len(obl) > 3 else ''), first))
 out = ['# Seeded property-breaking changes', '',
        'Each directory holds `patch.diff`, the demonstration (`demo_test.go.txt`), `notes.txt` (what the change needs in order to manifest),',
        '`meta.json` and the logs of the confirmation run (`tools/seedconfirm.sh`). None of these changes is ever committed to /repo.', '',
@@ -20,7 +21,7 @@ out = ['# Seeded property-breaking changes', '',
        '|---|---|---|---|---|---|---|']
 for r in rows:
     out.append('| ' + ' | '.join(x.replace('|', '\\|') for x in r) + ' |')
-n = len(rows); caught = sum(1 for r in rows if r[4] != '**missed**' and r[3] == 'yes'); conf = sum(1 for r in rows if r[3] == 'yes')
+n = len(rows); caught = sum(1 for r in rows if not r[4].startswith('**missed**') and r[3] == 'yes'); conf = sum(1 for r in rows if r[3] == 'yes')
 out += ['', f'{n} seeded changes, {conf} confirmed, {caught} of the confirmed ones reported by a check.']
 open('/verif/seeded/README.md', 'w').write('\n'.join(out) + '\n')
 print(out[-1])
